@@ -41,7 +41,14 @@ pub fn run(tier: &str) -> Result<Report, String> {
         if b.n <= 2 {
             let alpha = Alphabet::extended(ctx.nprops(), 2, 1, 2);
             let mut g = Gen::new(alpha);
-            let fs: Vec<_> = g.closed_up_to(m_ext).into_iter().filter(|f| f.uses_wild_or_dom()).collect();
+            let mut fs: Vec<_> = g.closed_up_to(m_ext).into_iter().filter(|f| f.uses_wild_or_dom()).collect();
+            // extended shapes beyond the node bound: templates and ordered pairs of the collision alphabet
+            // (the same sub-formula / shortcut pattern inside and outside a domain-restricted scope, both orders)
+            fs.extend(crate::formulas::templates(&ctx.user, true, if tier == "quick" { 2 } else { 6 }).into_iter().filter(|f| f.uses_wild_or_dom()));
+            if b.n >= 2 {
+                let pool: Vec<_> = crate::formulas::collision_alphabet(&ctx.user).into_iter().take(if tier == "quick" { 14 } else { 28 }).collect();
+                fs.extend(crate::formulas::pair_family(&pool, if tier == "quick" { 6 } else { 12 }, true).into_iter().filter(|f| f.uses_wild_or_dom()));
+            }
             for (desc, labels) in label_families(b, fams) {
                 let ctx = NetCtx::new(b.clone(), labels, &desc);
                 sem::sweep(&mut rep, &ctx, &fs, Checks { semantic: false, unit: true, entries: Entries::Ext2 });
@@ -81,6 +88,6 @@ pub fn run(tier: &str) -> Result<Report, String> {
     }
     slices.push(json!({"part": "constrained networks of the all-2-variable family", "networks": n2, "max_nodes": 3, "formulae": fs2.len()}));
     rep.set("slices", json!(slices));
-    rep.rule = "networks of the core family and of the de-duplicated all-2-variable family whose unit set is a strict subset of all parameter valuations x all closed plain formulae (all 9 binary operators) up to plain_max_nodes, the template families (benchmark formulae, quantifier nests, sub-formulae duplicated up to renaming at equal / different quantifier depths in both orders) and extended formulae up to extended_max_nodes: every raw result must be a subset of the unit set and independent of auxiliary variables, every sanitised result must not have more elements/colours than the unit set; distinct_nontrivial counts distinct non-trivial verdict tables of the explored formulae".into();
+    rep.rule = "networks of the core family and of the de-duplicated all-2-variable family whose unit set is a strict subset of all parameter valuations x all closed plain formulae (all 9 binary operators) up to plain_max_nodes, the template families (benchmark formulae, quantifier nests, sub-formulae duplicated up to renaming at equal / different quantifier depths in both orders) and extended formulae up to extended_max_nodes plus the extended templates and the pair family of the collision alphabet: every raw result must be a subset of the unit set and independent of auxiliary variables, every sanitised result must not have more elements/colours than the unit set; distinct_nontrivial counts distinct non-trivial verdict tables of the explored formulae".into();
     Ok(rep)
 }
